@@ -67,7 +67,19 @@ def subchecks(tier):
          "inf": 0.1, "reneging": 0.15, "system_capacity": 0.1, "sched_preempt": 0.4, "slotted": 0.2, "slot_capacitated": 0.6, "slot_preempt": 0.6}
     prof = S.Profile(ALLOWED, weights=w, numeric="mixed", max_nodes=3, max_classes=3, plans=("max_time", "max_customers"),
                      horizon=(5.0, 14.0), budget=600, load="heavy", excluded=("cc_preempt_after_restart",))
+    # shift changes that free four or more servers at once while more customers wait than servers open, under LIFO / SIRO and priorities
+    wbp = {"schedule": 1.0, "discipline": 1.0, "sched_preempt": 0.4, "batching": 0.8, "priorities": 0.5, "prio_preempt": 0.2, "capacity": 0.2,
+           "self_loops": 0.3, "server_priority": 0.2, "cc_waiting": 0.2, "reneging": 0.1}
+    bigp = S.Profile(list(wbp), weights=wbp, required=("schedule", "discipline"), numeric="grid", max_nodes=2, max_classes=3, plans=("max_time",),
+                     horizon=(8.0, 20.0), budget=900, load="heavy", max_c=9, long_service=0.5, excluded=("cc_preempt_after_restart",))
+
+    def nt_big(a, spec, res):
+        return nontrivial(a, spec, res) and a.get("starts_at_shift_change", 0) >= 1 and a.get("lifo_siro_choices", 0) >= 1
     return [
+        system_subcheck("big_pools", bigp, lambda spec: [ServiceOrder(spec)], nt_big, classes=classes, obs=True,
+                        n={"quick": 2400, "thorough": 15000},
+                        rule="server pools of up to 9 with schedules and LIFO/SIRO disciplines: several servers open at one shift change while more customers "
+                             "wait than servers open; same priority/discipline oracle for every start"),
         system_subcheck("system", prof, lambda spec: [ServiceOrder(spec)], nontrivial, classes=classes, obs=True,
                         n={"quick": 7200, "thorough": 40000}, rule="service starts vs priority/discipline oracle"),
         SubCheck("disciplines", disc_execute, strategy=disc_case(), n={"quick": 12000, "thorough": 40000}, kind="unit",
